@@ -406,23 +406,27 @@ fn check_response(rep: &Reporter, local: &mut Local, rp: &Response<Box<RawValue>
 
 /// (c) response acceptor vs reference predicate over all member sequences
 fn acceptor(rep: &Reporter) {
-	const M: [(&str, &str); 16] = [
-		("jsonrpc", "\"2.0\""),
-		("jsonrpc", "null"),
-		("jsonrpc", "\"1.0\""),
-		("jsonrpc", "2"),
-		("id", "1"),
-		("id", "null"),
-		("id", "\"x\""),
-		("id", "[1]"),
-		("id", "1.5"),
-		("id", "-1"),
-		("result", "7"),
-		("result", "null"),
-		("error", "{\"code\":-32000,\"message\":\"e\"}"),
-		("error", "{\"code\":\"x\"}"),
-		("unknown", "1"),
-		("error", "{\"code\":1,\"message\":\"e\",\"data\":[1]}"),
+	// (member name, how the name is spelled in the text, value text): JSON escapes in names and strings are spellings
+	// of the same member / value
+	const M: [(&str, &str, &str); 18] = [
+		("jsonrpc", "jsonrpc", "\"2.0\""),
+		("jsonrpc", "jsonrpc", "null"),
+		("jsonrpc", "jsonrpc", "\"1.0\""),
+		("jsonrpc", "jsonrpc", "2"),
+		("jsonrpc", "jsonrpc", "\"2\\u002e0\""),
+		("id", "id", "1"),
+		("id", "id", "null"),
+		("id", "id", "\"x\""),
+		("id", "id", "[1]"),
+		("id", "id", "1.5"),
+		("id", "id", "-1"),
+		("id", "\\u0069d", "1"),
+		("result", "result", "7"),
+		("result", "result", "null"),
+		("error", "error", "{\"code\":-32000,\"message\":\"e\"}"),
+		("error", "error", "{\"code\":\"x\"}"),
+		("unknown", "unknown", "1"),
+		("error", "error", "{\"code\":1,\"message\":\"e\",\"data\":[1]}"),
 	];
 	let maxlen = if rep.tier.thorough() { 6 } else { 5 };
 	let n = seq_count(M.len(), maxlen);
@@ -434,16 +438,16 @@ fn acceptor(rep: &Reporter) {
 				txt.push(',');
 			}
 			txt.push('"');
-			txt.push_str(M[*mi].0);
-			txt.push_str("\":");
 			txt.push_str(M[*mi].1);
+			txt.push_str("\":");
+			txt.push_str(M[*mi].2);
 		}
 		txt.push('}');
 		// reference predicate
 		let cnt = |name: &str| seq.iter().filter(|m| M[**m].0 == name).count();
-		let first = |name: &str| seq.iter().find(|m| M[**m].0 == name).map(|m| M[*m].1);
+		let first = |name: &str| seq.iter().find(|m| M[**m].0 == name).map(|m| M[*m].2);
 		let id_ok = cnt("id") == 1 && matches!(first("id"), Some("1") | Some("null") | Some("\"x\""));
-		let ver_ok = cnt("jsonrpc") == 0 || (cnt("jsonrpc") == 1 && matches!(first("jsonrpc"), Some("\"2.0\"") | Some("null")));
+		let ver_ok = cnt("jsonrpc") == 0 || (cnt("jsonrpc") == 1 && matches!(first("jsonrpc"), Some("\"2.0\"") | Some("null") | Some("\"2\\u002e0\"")));
 		let nres = cnt("result");
 		let nerr = cnt("error");
 		let payload_ok = (nres == 1 && nerr == 0) || (nres == 0 && nerr == 1 && first("error") != Some("{\"code\":\"x\"}"));
@@ -493,7 +497,7 @@ fn acceptor(rep: &Reporter) {
 
 pub fn check(rep: &Reporter) {
 	rep.set_rule(
-		"(a) every i32 code through ErrorCode::from/.code() and every defined kind through code()/from; (b) serialise→parse→equal→same bytes for Id/SubscriptionId over all strings of length ≤3 (thorough 4) over a 20-symbol alphabet (quote, backslash, controls, NUL, BMP, astral, combining) and u64 boundaries, Request/Notification/Response/ErrorObject/SubscriptionPayload over id × method × payload products; (c) Response parser vs reference predicate on all member sequences of length ≤5 (thorough 6) over 16 members. A case is distinct by its serialised text / member sequence / code; all cases are non-trivial (each exercises a serialiser or parser).",
+		"(a) every i32 code through ErrorCode::from/.code() and every defined kind through code()/from; (b) serialise→parse→equal→same bytes for Id/SubscriptionId over all strings of length ≤3 (thorough 4) over a 20-symbol alphabet (quote, backslash, controls, NUL, BMP, astral, combining) and u64 boundaries, Request/Notification/Response/ErrorObject/SubscriptionPayload over id × method × payload products; (c) Response parser vs reference predicate on all member sequences of length ≤5 (thorough 6) over 18 members (incl. an escaped spelling of \"2.0\" and of the member name id). A case is distinct by its serialised text / member sequence / code; all cases are non-trivial (each exercises a serialiser or parser).",
 	);
 	rep.assume("serde_json is trusted as the JSON layer on both sides");
 	codes(rep);
